@@ -30,6 +30,7 @@ pub fn run(a: &Args) -> Option<Report> {
         "cycles" => Some(run_cycles(a)),
         "uniform" => Some(run_uniform(a)),
         "overlap" => Some(run_overlap(a)),
+        "consumers" => Some(run_consumers(a)),
         "miri" | "tsan" => Some(run_small(a)),
         _ => None,
     }
@@ -343,6 +344,80 @@ fn run_overlap(a: &Args) -> Report {
     }
     rep.count("interleaving_signatures", sigs.len() as u64);
     rep.count("window:push-chose-side-then-drain-completed", windows);
+    rep
+}
+
+/// Several consumers: a consume() that starts while another consumer is still inside its closure (holding the Drain)
+/// must not hand out the side that is being drained. No push runs during any consume, so the known push/drain overlap
+/// is not involved: every value pushed before must be yielded by exactly one drain.
+fn run_consumers(a: &Args) -> Report {
+    use std::sync::mpsc;
+    let mut rep = Report::new("C16", &a.leg, a.seed);
+    let mut r = Rng::new(a.shard_seed());
+    let trials = a.budget(60, 3000);
+    for _ in 0..trials {
+        let n = 1 + r.usize(12);
+        let cap = n + r.usize(4);
+        let extra = 1 + r.usize(3); // consumes issued by the second consumer while the first holds its drain
+        let res = Arc::new(AtomicSamplingReservoir::new(cap));
+        // an earlier cycle so that both sides have been used
+        if r.chance(1, 2) {
+            res.push(-1.0);
+            let _ = drain_all(&res);
+        }
+        for i in 0..n {
+            res.push((i + 1) as f64);
+        }
+        let (inside_tx, inside_rx) = mpsc::channel::<()>();
+        let (done_tx, done_rx) = mpsc::channel::<()>();
+        let resa = res.clone();
+        let first = std::thread::spawn(move || {
+            let mut got = Vec::new();
+            resa.consume(|d| {
+                inside_tx.send(()).ok();
+                // stay inside until the second consumer finished or (when it is made to wait for us) a short while passed
+                let _ = done_rx.recv_timeout(std::time::Duration::from_millis(15));
+                got.extend(d);
+            });
+            got
+        });
+        inside_rx.recv().ok();
+        let resb = res.clone();
+        let second = std::thread::spawn(move || {
+            let mut outs = Vec::new();
+            for _ in 0..extra {
+                outs.push(drain_all(&resb).0);
+            }
+            done_tx.send(()).ok();
+            outs
+        });
+        let got_a = first.join().unwrap();
+        let outs_b = second.join().unwrap();
+        let tail = [drain_all(&res).0, drain_all(&res).0];
+        let mut count: HashMap<u64, u32> = HashMap::new();
+        for v in got_a.iter().chain(outs_b.iter().flatten()).chain(tail.iter().flatten()) {
+            *count.entry(v.to_bits()).or_default() += 1;
+        }
+        rep.case(mix(mix(n as u64, cap as u64), extra as u64 ^ (got_a.len() as u64) << 8), true);
+        let desc = jo! {"pushed_before" => n, "capacity" => cap, "consumes_by_second_consumer_meanwhile" => extra, "first_consumer_got" => got_a.len(), "second_consumer_got" => J::A(outs_b.iter().map(|o| J::U(o.len() as u64)).collect())};
+        let mut bad = None;
+        for i in 0..n {
+            let c = count.get(&((i + 1) as f64).to_bits()).cloned().unwrap_or(0);
+            if c != 1 {
+                bad = Some(((i + 1) as f64, c));
+                break;
+            }
+        }
+        if let Some((v, c)) = bad {
+            rep.violation(if c == 0 { "C16:value-lost:overlapping-consumers" } else { "C16:value-yielded-twice:overlapping-consumers" }, jo! {"what" => "with no push running during any consume, a value pushed before was not yielded exactly once when a second consumer called consume() while the first was still inside its closure", "value" => v, "times_yielded" => c as u64, "trial" => desc.clone()});
+        }
+        if count.keys().any(|k| { let v = f64::from_bits(*k); !(v >= 1.0 && v <= n as f64) }) {
+            rep.violation("C16:fabricated-value", jo! {"what" => "a drain yielded a value that was not pushed in this cycle", "trial" => desc.clone()});
+        }
+        if rep.want_sample() {
+            rep.sample(jo! {"overlapping_consumers" => true, "trial" => desc});
+        }
+    }
     rep
 }
 
